@@ -151,7 +151,7 @@ func c17r2(r *R) {
 
 // retExpr renders result k of a return, resolving loads of a named-result cell to the value stored in the same block.
 func retExpr(c *Ctx, ret *ssa.Return, k int) string {
-	v := ret.Results[k]
+	v := refineAt(ret.Results[k], ret.Block())
 	if u, ok := v.(*ssa.UnOp); ok && u.Op == token.MUL {
 		if al, ok := u.X.(*ssa.Alloc); ok {
 			var last ssa.Value
